@@ -3,7 +3,7 @@
    No proofs here.  Shape and details follow DESIGN.md Appendix C:
      - find_a_zero scans rows cyclically from i0 and, inside the first row holding an uncovered zero,
        keeps the LAST such zero in cyclic column order from j0;
-     - find_smallest starts from sys.maxsize;
+     - find_smallest starts from the first uncovered value (None), sys.maxsize only if there is none (fix ea8a5bc);
      - step 6 adds to covered rows first, then subtracts from uncovered columns (order matters for floats);
      - loops run on explicit fuel and return None when it is exhausted or when the Python code would
        raise (no prime in the row during step 5, events == 0 in step 6). *)
@@ -155,14 +155,22 @@ Section Generic.
     end.
 
   (* ---- step 6 ---- *)
-  Definition find_smallest (s : state) : K :=
-    fold_left (fun (m : K) (irow : nat * list K) =>
+  (* munkres.py after fix ea8a5bc: the search starts from None (first uncovered value wins), and falls back to
+     sys.maxsize only when there is no uncovered cell at all *)
+  Definition find_smallest_opt (s : state) : option K :=
+    fold_left (fun (m : option K) (irow : nat * list K) =>
       let (i, row) := irow in
       if nth i (sRC s) false then m
-      else fold_left (fun (m' : K) (jx : nat * K) => let (j, x) := jx in
-                        if negb (nth j (sCC s) false) && kltb x m' then x else m')
+      else fold_left (fun (m' : option K) (jx : nat * K) => let (j, x) := jx in
+                        if nth j (sCC s) false then m'
+                        else match m' with
+                             | None => Some x
+                             | Some v => if kltb x v then Some x else m'
+                             end)
                      (combine (seq 0 (length row)) row) m)
-      (combine (seq 0 (length (sC s))) (sC s)) kmaxsize.
+      (combine (seq 0 (length (sC s))) (sC s)) None.
+  Definition find_smallest (s : state) : K :=
+    match find_smallest_opt s with None => kmaxsize | Some v => v end.
   Definition events (s : state) : Z :=
     fold_left Z.add
       (map (fun i => fold_left Z.add
